@@ -234,7 +234,7 @@ def run(ctx, prop):
         if runfam[r0['id']][1] in ('random', 'rr', 'seq') and not r0['extras'] and nloc < ctx.pick(40, 300):
             nloc += 1
             rid = len(runs) + 1
-            r1 = dict(r0, id=rid, modeLocal=True, extras=(nloc % 2 == 0), seed=rng.randrange(1 << 30))
+            r1 = dict(r0, id=rid, modeLocal=True, extras=(nloc % 2 == 0), seed=rng.randrange(1 << 30), endFmt=(3 if nloc % 3 == 0 and not r0['late'] else r0['endFmt']))
             runs.append(r1)
             runfam[rid] = (runfam[r0['id']][0], 'modelocal')
 
